@@ -606,6 +606,12 @@ def c10(res, tier, rng, wd):
     design_client(res, "C10", ["AtMostOnce", "NothingPendingAtEnd", "Conservation", "ShutdownOnlyWhenGone"], ["Classified"], thorough, live=True)
     scs = e2.gen_c10(rng, 3000 if thorough else 400, thorough)
     run_e2(res, "C10", scs, wd, "c10")
+    # a request (or any command) handed in while a connection attempt completes in the same instant: whichever branch of
+    # the task's select! wins, the request completes exactly once and with the error that tells what happened
+    races = [s for s in e2.gen_c13(rng, thorough) if "race" in s["tag"]]
+    for i, s in enumerate(races):
+        s["id"] = i
+    run_e2(res, "C10", races, wd, "c10races")
     # spec -> impl: behaviours chosen by TLC's simulation of Client.tla, replayed against the production code
     for mode in ("session", "task"):
         sim = e2.sim_scripts(wd, mode, 4000 if thorough else 500, res.seed)
